@@ -25,7 +25,21 @@ def setup():
     return 2 if bad else 0
 
 
+def private_cache():
+    """The library's on-disk caches (matrices, selected encoders) are keyed by settings only: a run against another
+    tree (a seeded change, an older commit) must never leave entries that a later run reads. Every run of ./check gets
+    its own cache directory, removed at exit."""
+    import atexit
+    import shutil
+    import tempfile
+    os.makedirs(runner.CACHE, exist_ok=True)
+    d = tempfile.mkdtemp(prefix='xdg-', dir=runner.CACHE)
+    os.environ['XDG_CACHE_HOME'] = d
+    atexit.register(shutil.rmtree, d, True)
+
+
 def main():
+    private_cache()
     ap = argparse.ArgumentParser()
     ap.add_argument('pid')
     ap.add_argument('--tier', default=os.environ.get('VERIF_TIER') or 'quick')
